@@ -484,6 +484,24 @@ func nonNeg(fn *ssa.Function, at ssa.Instruction, v ssa.Value, absFuncs map[*ssa
 			}
 		}
 		if x.Op == token.ADD {
+			// range index: phi(-1, self) + 1
+			if phi, ok := x.X.(*ssa.Phi); ok {
+				if c, isC := ConstInt(x.Y); isC && c == 1 {
+					isRange := len(phi.Edges) >= 2
+					for _, ed := range phi.Edges {
+						if k, ok := ConstInt(ed); ok && k == -1 {
+							continue
+						}
+						if ed == ssa.Value(x) {
+							continue
+						}
+						isRange = false
+					}
+					if isRange {
+						return true, "range index"
+					}
+				}
+			}
 			// (a % m) + m with m > 0 is positive
 			for _, pair := range [][2]ssa.Value{{x.X, x.Y}, {x.Y, x.X}} {
 				if rem, ok := stripIntWiden(pair[0]).(*ssa.BinOp); ok && rem.Op == token.REM && sameValue(rem.Y, pair[1]) {
